@@ -310,6 +310,9 @@ distinct = distinct resolution patterns / (history length, key set, sequence, fl
     }
     let n_rand = ctx.tier.pick(10_000, 400_000);
     for i in 0..n_rand {
+        if i % 16 == 1 {
+            crate::props::poison::run(i as u64);
+        }
         let n = rng.urange(0, 32);
         let cuts: Vec<(bool, u8, u8)> = (0..n).map(|_| (rng.chance(1, 2), rng.below(7) as u8, rng.below(4) as u8)).collect();
         let msg = vcp_with(&mut rng, &cuts);
